@@ -537,6 +537,33 @@ impl Session {
     }
 }
 
+#[cfg(lora_rs_verif)]
+impl Session {
+    pub fn verif_snapshot(&self) -> crate::verif::VerifSession {
+        let mut pending = [0u8; 15];
+        let p = self.uplink.mac_commands();
+        pending[..p.len()].copy_from_slice(p);
+        crate::verif::VerifSession {
+            nwkskey: self.nwkskey.inner().0,
+            appskey: self.appskey.inner().0,
+            devaddr: self.devaddr.value(),
+            fcnt_up: self.fcnt_up,
+            fcnt_down: self.fcnt_down,
+            adr_ack_cnt: self.adr_ack_cnt,
+            confirmed: self.confirmed,
+            pending,
+            pending_len: p.len() as u8,
+            owed_ack: self.uplink.confirms_downlink(),
+        }
+    }
+}
+
+/// Verification hook: the downlink counter reconstruction, exported for exhaustive enumeration.
+#[cfg(lora_rs_verif)]
+pub fn verif_next_fcnt_down(last: Option<u32>, wire: u16) -> Option<u32> {
+    next_fcnt_down(last, wire)
+}
+
 /// Next lower region-supported data rate, if any.
 fn next_lower_datarate(region: &region::Configuration, current: DR) -> Option<DR> {
     let current = current as u8;
